@@ -2,8 +2,8 @@
 """Regenerates MANIFEST.json from the table below (keeps it valid at all times)."""
 import json, os
 V = os.path.dirname(os.path.dirname(os.path.abspath(__file__)))
-COMMON_NOTE = ("Trusted: Coq 8.16.1 kernel (vm_compute used, native_compute not); no axioms (every theorem 'Closed under the "
-               "global context', re-printed on each run); extraction with ExtrOcamlBasic only + runner/driver.ml, cross-checked "
+COMMON_NOTE = ("Trusted: Coq 8.16.1 kernel (vm_compute used, native_compute not); no axioms used (every theorem 'Closed under the "
+               "global context', re-printed on each run; coqchk -o lists only the stdlib's eq_rect_eq, loaded through AAC_tactics, which no theorem depends on); extraction with ExtrOcamlBasic only + runner/driver.ml, cross-checked "
                "against vm_compute on a sample of each run's cases; the Python differential harness. ")
 POOLNOTE = "Modelled, not verified: the pool as a labelled transition system (Model/Pool.v) at the granularity of operations visible to another thread/process (queue put/get, the two progress flags, event set/clear/wait, thread and process start/join); thread-local work between two such operations is folded into the adjacent step (reduction argument in DESIGN.md); the functor is uninterpreted. Tie: the UNMODIFIED pool code is run under a controlled cooperative scheduler on a fake multiprocessing context (harness/sched.py: manager queues, locks, events, processes-as-threads; every operation a scheduling point, deadlock detected structurally); its visible operations are mapped to model events and the extracted model must ACCEPT the whole trace and end in the same observable state (trace acceptance), while the property oracle is evaluated on the implementation's own run. Real OS processes, pickling, and CPython's GIL atomicity of single attribute loads/stores are assumed, not modelled. "
 CLAIMS = {
